@@ -22,7 +22,7 @@ MANIFEST = dict(
          "observable; methods are sampled per run (all are covered in the thorough tier); Query objects are copied but not pickled",
     technique="TLA+ spec (Generative.tla) + TLC exhaustive over derivation trees; spec->code replay of every state-graph edge on real statements")
 INVS = ["ValueIsDescr", "CopiesEqual", "Deterministic", "CompileReturnsMeaning"]
-PROPS = ["Immutable", "CompileInert", "HeapAppendOnly"]
+PROPS = ["Immutable", "CompileInert", "HeapAppendOnly", "RefusedChangesNothing"]
 DIALECTS = ["sqlite", "postgresql", "mysql", "mssql", "oracle"]
 METHODS = {
     "select": ["where", "wherein", "having", "join", "outerjoin", "order", "group", "limit", "offset", "distinct", "prefix", "execopt",
